@@ -584,13 +584,8 @@ Fixpoint render (c : ctx) (p : pz) (t : term) {struct t} : res (str * pz) :=
       | None => Ok (alias_sql c (value_sql w (dial_eqb (dialect c) MYSQL) (secondary_quote_char c) v) alias, p)
       end
   | TValTerm w t' vid alias allow =>
-      match p with
-      | Some z =>
-          if allow then
-            let '(txt, z') := create_param c z vid in Ok (alias_sql c txt alias, Some z')
-          else do (s, p1) <- render c p t'; Ok (alias_sql c s alias, p1)
-      | None => do (s, p1) <- render c p t'; Ok (alias_sql c s alias, p1)
-      end
+      (* Parameterizer.should_parameterize answers False for a query-builder object: the wrapped term is statement text, never a listed value *)
+      do (s, p1) <- render c p t'; Ok (alias_sql c s alias, p1)
   | TNeg t' alias =>
       do (s, p1) <- render (set_with_alias false c) p t';
       let compound := match t' with TArith _ _ _ _ => true | _ => leads_minus t' end in
